@@ -601,6 +601,7 @@ class OffsetDateTime:
         return OffsetDateTime._ctor(
             instant=self.to_instant() + duration,
             offset=self.offset,
+            calendar=self.calendar,
         )
 
     @staticmethod
@@ -688,6 +689,7 @@ class OffsetDateTime:
             return OffsetDateTime._ctor(
                 instant=self.to_instant() - other,
                 offset=self.offset,
+                calendar=self.calendar,
             )
         if isinstance(other, OffsetDateTime):
             return self.to_instant() - other.to_instant()
